@@ -331,6 +331,16 @@ def export_node(n: fx.Node, mod: fx.GraphModule,
             return
         layer = cast(PITModule, mod.get_submodule(str(n.target)))
         layer.export(n, mod)
+    elif n.op == 'call_module':
+        # another invocation of a layer that has already been exported (at the first of its call
+        # sites to be visited): the BatchNorm that was re-created after it must follow it here too
+        bn_name = str(n.target) + "_exported_bn"
+        if bn_name in dict(mod.named_modules()) and not any(
+                u.op == 'call_module' and str(u.target) == bn_name for u in n.users):
+            with mod.graph.inserting_after(n):
+                new_node = mod.graph.call_module(bn_name, args=(n,))
+                n.replace_all_uses_with(new_node)
+                new_node.replace_input_with(new_node, n)
 
 
 def remove_bn_inplace(lin: nn.Module, bn: nn.Module, fold: bool):
